@@ -770,6 +770,48 @@ func checkEntries(r *Run, rc *RuleCtx, cl *closures) {
 			if !exactCopyValue(best.Val, 0) {
 				rc.Violation(fn, instrPos(best), "Raw = "+exprDepth(best.Val, 0), "the stored buffer is not append(<empty>, data...): its length is not established to equal the data's length")
 			}
+			if fn.Name() == "CloneTo" {
+				// the clone holds exactly the source's bytes: what is appended is the source's Raw itself, not a
+				// re-slice of it by a cached field (shorter: bytes are lost; longer: stale buffer content is cloned)
+				var srcs []ssa.Value
+				var collect func(v ssa.Value, depth int)
+				collect = func(v ssa.Value, depth int) {
+					if depth > 6 {
+						return
+					}
+					switch x := v.(type) {
+					case *ssa.Call:
+						if isBuiltinCall(x, "append") && len(x.Call.Args) == 2 {
+							srcs = append(srcs, x.Call.Args[1])
+						}
+					case *ssa.ChangeType:
+						collect(x.X, depth+1)
+					case *ssa.Phi:
+						for _, e := range x.Edges {
+							collect(e, depth+1)
+						}
+					}
+				}
+				collect(best.Val, 0)
+				for _, sv := range srcs {
+					for {
+						ct, isCT := sv.(*ssa.ChangeType)
+						if !isCT {
+							break
+						}
+						sv = ct.X
+					}
+					whole := false
+					if ld, isLd := canonPhi(sv).(*ssa.UnOp); isLd && ld.Op == token.MUL {
+						if _, f := loadedField(ld); f == rawField {
+							whole = true
+						}
+					}
+					if !whole {
+						rc.Violation(fn, instrPos(best), "clone source "+exprDepth(sv, 0), "CloneTo does not copy the source's Raw as it is: a view cut by a cached field loses bytes or, when it reaches beyond len(Raw), clones stale buffer content")
+					}
+				}
+			}
 			eachInstr(fn, func(b *ssa.BasicBlock, i int, in ssa.Instruction) {
 				if ci, ok := in.(ssa.CallInstruction); ok && in != ssa.Instruction(dc) && instrDominates(best, in) && instrDominates(in, dc) {
 					if _, isB := ci.Common().Value.(*ssa.Builtin); isB {
